@@ -137,7 +137,11 @@ func engineNotebook(ctx *Ctx) {
 		// the processor count the binary sees (a user's machine has 1 to hundreds)
 		procEnv := []string{"GOMAXPROCS=" + []string{"1", "2", "3", "4", "5", "6", "7", "8", "12", "16", "32", "64"}[r.Intn(12)]}
 		model := []c08Entry{}
+		dupCmd := "" // the command string a hand-edited notebook lists twice
 		start := []string{"missing", "empty-0-bytes", "empty-list", "populated"}[r.Intn(4)]
+		if ctx.G(hI)%4 == 1 {
+			start = "populated"
+		}
 		os.MkdirAll(filepath.Dir(h.Personal()), 0o755)
 		switch start {
 		case "empty-0-bytes":
@@ -156,6 +160,20 @@ func engineNotebook(ctx *Ctx) {
 				}
 			}
 			pre = u
+			if ctx.G(hI)%4 == 1 && len(pre) >= 2 {
+				// a notebook edited by hand (or written by two saves at once) that lists one command twice, with other entries
+				// between and behind the two copies
+				x := pre[0]
+				x.Description = "an older note on the same command"
+				x.Keywords = []string{"stale"}
+				more := vlib.StripCaches(vlib.GenCommands(r, vlib.DBSpec{N: 3, PseudoCmd: true}))
+				for i := range more {
+					more[i].Command = fmt.Sprintf("%s --after-the-copy-%d", more[i].Command, i)
+				}
+				pre = append(append(append([]vlib.Cmd{}, pre...), x), more...)
+				dupCmd = x.Command
+				ctx.R.Path("notebooks-listing-a-command-twice", 1)
+			}
 			vlib.WriteYAML(h.Personal(), pre)
 			for _, c := range pre {
 				model = append(model, c08Entry{Command: c.Command, Description: c.Description, Niche: c.Niche, Keywords: c.Keywords, Platforms: c.Platform, Pipeline: c.Pipeline})
@@ -183,6 +201,7 @@ func engineNotebook(ctx *Ctx) {
 				target, targetAbs = "gone.yml", ""
 				os.Remove(h.Personal())
 				model = model[:0]
+				dupCmd = ""
 				start = "missing"
 			}
 			if targetAbs != "" {
@@ -208,7 +227,9 @@ func engineNotebook(ctx *Ctx) {
 			var args []string
 			pipelineCmd := r.Intn(4) == 0
 			// command string: sometimes repeat an earlier one (replace instead of duplicate)
-			if len(model) > 0 && r.Intn(4) == 0 {
+			if dupCmd != "" && r.Intn(3) == 0 {
+				e.Command = dupCmd
+			} else if len(model) > 0 && r.Intn(4) == 0 {
 				e.Command = model[r.Intn(len(model))].Command
 			} else {
 				e.Command = c08Arg(r, "")
@@ -367,7 +388,55 @@ func engineNotebook(ctx *Ctx) {
 				break
 			}
 			bad := false
-			if len(nb.Commands) != len(model) {
+			if dupCmd != "" && e.Command == dupCmd {
+				// the command saved again is the one listed twice: whatever becomes of the copies, every entry with a DIFFERENT command
+				// string is still there, unchanged, in its original order, and a copy holds what was just saved
+				var others []c08Entry
+				for _, m := range model {
+					if m.Command != dupCmd {
+						others = append(others, m)
+					}
+				}
+				var rebuilt []c08Entry
+				k, faithful := 0, false
+				for _, c := range nb.Commands {
+					if c.Command == dupCmd {
+						if c08Match(c, e) == "" {
+							faithful = true
+							rebuilt = append(rebuilt, e)
+						} else {
+							rebuilt = append(rebuilt, c08Entry{Command: c.Command, Description: c.Description, Niche: c.Niche, Keywords: c.Keywords, Platforms: c.Platform, Pipeline: c.Pipeline})
+						}
+						continue
+					}
+					if k >= len(others) {
+						k++
+						continue
+					}
+					if why := c08Match(c, others[k]); why != "" && !bad {
+						ctx.R.Violate(vlib.Violation{Property: "C08", Clause: "neighbour-changed", Path: "wtf " + args[0] + "/notebook-listing-the-command-twice",
+							Detail: fmt.Sprintf("entry number %d among those with another command string: %s", k, why), Witness: cs})
+						bad = true
+					}
+					rebuilt = append(rebuilt, others[k])
+					k++
+				}
+				if k != len(others) && !bad {
+					ctx.R.Violate(vlib.Violation{Property: "C08", Clause: "neighbour-lost-or-added", Path: "wtf " + args[0] + "/notebook-listing-the-command-twice",
+						Detail: fmt.Sprintf("the notebook holds %d entries with another command string, %d were there before the save", k, len(others)), Witness: cs})
+					bad = true
+				}
+				if !faithful && !bad {
+					ctx.R.Violate(vlib.Violation{Property: "C08", Clause: "saved-entry-not-faithful", Path: "wtf " + args[0] + "/notebook-listing-the-command-twice",
+						Detail: "no copy of the saved command holds what was just saved", Witness: cs})
+					bad = true
+				}
+				if bad {
+					break
+				}
+				model = rebuilt
+				ctx.R.Path("re-saves-of-a-command-the-notebook-lists-twice", 1)
+			} else if len(nb.Commands) != len(model) {
 				dup := ""
 				cnt := map[string]int{}
 				for _, c := range nb.Commands {
